@@ -1822,11 +1822,14 @@ pub fn verify_compatiblity<T: AbiExportable + ?Sized>(path: &str) -> Result<(), 
         let def = T::get_definition(version);
         let schema_file_name = Path::join(Path::new(path), format!("savefile_{}_{}.schema", def.name, version));
         if std::fs::metadata(&schema_file_name).is_ok() {
-            let previous_schema = load_file_noschema(&schema_file_name, 1)?;
+            // Files written by earlier releases have data version 1; accept anything up to the current format.
+            let previous_schema = load_file_noschema(&schema_file_name, CURRENT_SAVEFILE_LIB_VERSION as u32)?;
 
             def.verify_backward_compatible(version, &previous_schema, false)?;
         } else {
-            save_file_noschema(&schema_file_name, 1, &def)?;
+            // Record the definition in the current format: data version 1 cannot represent the receiver type
+            // and the async flag of a method, so a definition written with it did not read back equal.
+            save_file_noschema(&schema_file_name, CURRENT_SAVEFILE_LIB_VERSION as u32, &def)?;
         }
     }
     Ok(())
